@@ -650,4 +650,136 @@ def Imputable (st : Stat) (w : List Val) : Prop :=
   (w.filter (fun v => !v.isMiss)) ≠ [] ∧
   (match st with | .mode => True | _ => (w.filter (fun v => !v.isMiss)).all Val.isNum = true)
 
+/-! ### phase 4 — exception VALUES inside `_get_shift_and_scale`, ragged dense rows, option tables -/
+
+/-- the exception classes that can arise while the statistics of one window column are computed.
+`statisticsError` is `statistics.StatisticsError` (a subclass of `ValueError`): `fmean`/`median` of no data, `stdev` of
+fewer than two values.  `valueError` is the plain `ValueError` of `min()`/`max()` on an empty list.  `typeError`: a string
+met arithmetic or a comparison with a number.  `indexError` would be `percentile` indexing outside its list. -/
+inductive FitErr where
+  | typeError | valueError | statisticsError | indexError
+  deriving DecidableEq, Repr
+
+/-- the class names along the MRO of an exception class (up to `Exception`) -/
+def FitErr.mro : FitErr → List String
+  | .typeError => ["TypeError"]
+  | .valueError => ["ValueError"]
+  | .statisticsError => ["StatisticsError", "ValueError"]
+  | .indexError => ["IndexError", "LookupError"]
+
+/-- is the exception caught by `except (<handlers>)` -/
+def FitErr.caughtBy (handlers : List String) (e : FitErr) : Bool := e.mro.any (fun c => handlers.contains c)
+
+/-- the handler tuple of `_get_shift_and_scale`: `except (TypeError,ValueError)` -/
+def scaleHandlers : List String := ["TypeError", "ValueError"]
+
+/-- `Scale._shift_value` with the exception it raises -/
+def shiftValueE (sh : Shift) (xs : List Rat) : Except FitErr Rat :=
+  match sh with
+  | .num a => .ok a
+  | .min => match minL xs with | some m => .ok (-m) | none => .error .valueError
+  | .mean => match mean xs with | some m => .ok (-m) | none => .error .statisticsError
+  | .median => match median xs with | some m => .ok (-m) | none => .error .statisticsError
+
+/-- `Scale._scale_value` with the exception it raises -/
+def scaleValueE (sd : List Rat → Rat) (sc : Scl) (xs : List Rat) (shift : Rat) : Except FitErr Rat :=
+  match sc with
+  | .num b => .ok (guardDiv (b, 1))
+  | .minmax => match maxL xs, minL xs with
+    | some mx, some mn => .ok (guardDiv (1, mx - mn))
+    | _, _ => .error .valueError
+  | .std => if xs.length < 2 then .error .statisticsError else .ok (guardDiv (1, sd xs))
+  | .iqr => match iqr xs with | some d => .ok (guardDiv (1, d)) | none => .error .indexError
+  | .maxabs => match maxL (xs.map (fun v => absR (v + shift))) with
+    | some d => .ok (guardDiv (1, d))
+    | none => .error .valueError
+
+/-- the body of the `try` in `_get_shift_and_scale`: parameters or the exception raised.  In a window holding a string
+every statistic that looks at the values raises `TypeError` (whatever else is in the window, the string is among the
+non-missing values). -/
+def fitE (sd : List Rat → Rat) (cfg : Cfg) (w : List Val) : Except FitErr (Rat × Rat) :=
+  if w.any Val.isStr then
+    match cfg.shift, cfg.scale with
+    | .num a, .num b => .ok (a, b)
+    | .num a, .iqr => if presentCount w ≤ 1 then .ok (a, 1) else .error .typeError
+    | _, _ => .error .typeError
+  else match shiftValueE cfg.shift (nums w) with
+    | .error e => .error e
+    | .ok sh => match scaleValueE sd cfg.scale (nums w) sh with
+      | .error e => .error e
+      | .ok sc => .ok (sh, sc)
+
+/-- `_get_shift_and_scale` as a whole: a caught exception becomes `None`, an uncaught one leaves the function -/
+def getShiftAndScale (handlers : List String) (sd : List Rat → Rat) (cfg : Cfg) (w : List Val) :
+    Except FitErr (Option (Rat × Rat)) :=
+  match fitE sd cfg w with
+  | .ok p => .ok (some p)
+  | .error e => if e.caughtBy handlers then .ok none else .error e
+
+/-- all dense contexts have the length of the first one -/
+def Rect (rows : List (List Val)) : Bool :=
+  match rows with
+  | [] => true
+  | f :: r => r.all (fun x => x.length == f.length)
+
+inductive ScaleErr where
+  | cobaException | indexError
+  deriving DecidableEq, Repr
+
+/-- dense potential keys, in order -/
+def potKeys (first : List Val) : List Nat := (List.range first.length).filter (potDense first)
+
+/-- `Scale.filter` on dense contexts INCLUDING ragged rows (outside the property's quantifier: a feature is a column of
+every interaction).  `itemgetter(k)` on a window row that lacks a potential column raises `IndexError` (for one key inside
+`_get_shift_and_scale`, whose handler does not catch it; for several keys in `zip(*map(itemgetter(*keys),…))`), and
+`context[i]` raises it on ANY row lacking a column that got parameters.  Longer rows keep their extra cells. -/
+def scaleDenseE (sd : List Rat → Rat) (cfg : Cfg) (rows : List (List Val)) : Except ScaleErr (List (List Val)) :=
+  match rows with
+  | [] => .ok []
+  | first :: _ =>
+    let win := window cfg.usingN rows
+    if win.any (fun r => (potKeys first).any (fun k => decide (r.length ≤ k))) then .error .indexError
+    else if !denseZeroWindow cfg rows &&
+        rows.any (fun r => ((potKeys first).filter (fun k => (fit sd cfg (col k win)).isSome)).any (fun k => decide (r.length ≤ k)))
+      then .error .indexError
+    else .ok (scaleDenseFull sd cfg rows)
+
+/-! #### option tables: the accepted option strings and what they dispatch to -/
+
+def shiftNames : List String := ["min", "mean", "med", "median"]
+def scaleNames : List String := ["minmax", "std", "iqr", "maxabs"]
+def statNames : List String := ["mean", "median", "mode"]
+
+/-- the `shift` option strings (`"med"` is a synonym of `"median"`) -/
+def shiftOfName (s : String) : Option Shift :=
+  if s = "min" then some .min else if s = "mean" then some .mean
+  else if s = "med" then some .median else if s = "median" then some .median else none
+
+def sclOfName (s : String) : Option Scl :=
+  if s = "minmax" then some .minmax else if s = "std" then some .std
+  else if s = "iqr" then some .iqr else if s = "maxabs" then some .maxabs else none
+
+def statOfName (s : String) : Option Stat :=
+  if s = "mean" then some .mean else if s = "median" then some .median else if s = "mode" then some .mode else none
+
+/-- the functions `_shift_value` calls for a statistic (sorted names) -/
+def shiftCalls : Shift → List String
+  | .num _ => [] | .min => ["min"] | .mean => ["fmean"] | .median => ["median"]
+
+/-- the functions called for the denominator in `_scale_value` (sorted names) -/
+def sclCalls : Scl → List String
+  | .num _ => [] | .minmax => ["max", "min"] | .std => ["stdev"] | .iqr => ["iqr"] | .maxabs => ["abs", "max"]
+
+/-- the functions `_get_imputation` calls (sorted names) -/
+def statCalls : Stat → List String
+  | .mean => ["len", "sum"] | .median => ["median"] | .mode => ["mode"]
+
+/-- the model's dispatch tables in the form the translator extracts them from the source -/
+def shiftTable : List (String × List String) := shiftNames.filterMap (fun n => (shiftOfName n).map (fun s => (n, shiftCalls s)))
+def sclTable : List (String × List String) := scaleNames.filterMap (fun n => (sclOfName n).map (fun s => (n, sclCalls s)))
+def statTable : List (String × List String) := statNames.filterMap (fun n => (statOfName n).map (fun s => (n, statCalls s)))
+
+/-- the degenerate-feature threshold `.000001` -/
+def guardThreshold : Rat := 1 / 1000000
+
 end Coba.C11
